@@ -81,6 +81,11 @@ theorem perm (g : Geo R I F) {I' : List Seg} (hp : I'.Perm I) : Geo R I' F :=
   ⟨g.rDisj, (hp.pairwise_iff (fun h => Disj.symm h)).mpr g.iDisj,
    fun i hi => g.iIn i (hp.mem_iff.mp hi), g.fIn, fun i hi => g.fDisj i (hp.mem_iff.mp hi)⟩
 
+theorem permR (g : Geo R I F) {R' : List Seg} (hp : R'.Perm R) : Geo R' I F :=
+  ⟨(hp.pairwise_iff (fun h => Disj.symm h)).mpr g.rDisj, g.iDisj,
+   fun i hi => (g.iIn i hi).imp id (fun ⟨r, hr, h⟩ => ⟨r, hp.mem_iff.mpr hr, h⟩),
+   g.fIn.imp id (fun ⟨r, hr, h⟩ => ⟨r, hp.mem_iff.mpr hr, h⟩), g.fDisj⟩
+
 /-- the free range shrinks (or becomes empty) -/
 theorem shrink (g : Geo R I F) {F' : Seg} (hF : Sub F' F) : Geo R I F' := by
   refine ⟨g.rDisj, g.iDisj, g.iIn, ?_, fun i hi => Disj.of_sub (g.fDisj i hi) hF⟩
